@@ -209,12 +209,13 @@ theorem cli_keyfile_first_error (b : Bytes) (e : KeyFileErr) :
 /-- Whatever the result: a line number is in the warning log only if that line
     is neither empty nor a comment, failed to parse, and satisfies the skip
     condition exactly as coded (`sshKeyType` recognises it, and its type is not
-    `ssh-rsa`/`ssh-ed25519` or `ssh.ParseAuthorizedKey` accepts it). -/
+    `ssh-rsa`/`ssh-ed25519`, or it is `ssh-rsa` and `ssh.ParseAuthorizedKey`
+    accepts it). -/
 theorem cli_skipped_sound (b : Bytes) (m : Nat)
     (hm : m ∈ (cliParseRecipientsFile p sn sv lim maxTok limit b).skipped) :
     ∃ i l, m = i + 1 ∧ (linesOf maxTok limit b)[i]? = some l ∧ content l = true ∧ l.length ≤ lim ∧
       p l = none ∧
-      ∃ t, sn l = some t ∧ ((t ≠ sshRsa ∧ t ≠ sshEd25519) ∨ sv l = true) := by
+      ∃ t, sn l = some t ∧ ((t ≠ sshRsa ∧ t ≠ sshEd25519) ∨ (t = sshRsa ∧ sv l = true)) := by
   unfold cliParseRecipientsFile parseFile at hm
   rw [loop_skipped] at hm
   simp only [List.nil_append] at hm
@@ -239,8 +240,27 @@ theorem cli_skipped_sound (b : Bytes) (m : Nat)
   | some t =>
     rw [hsn] at hs
     refine ⟨t, rfl, ?_⟩
-    simp only [Bool.or_eq_true, Bool.and_eq_true, bne_iff_ne, ne_eq] at hs
+    simp only [Bool.or_eq_true, Bool.and_eq_true, bne_iff_ne, ne_eq, beq_iff_eq] at hs
     exact hs
+
+/-- A failing line that `sshKeyType` recognises as `ssh-ed25519` is never skipped:
+    if it is delivered, is neither empty nor a comment and does not parse, the
+    parse fails (at that line or earlier). -/
+theorem cli_ed25519_never_skipped (b : Bytes) (i : Nat) (l : Bytes)
+    (hl : (linesOf maxTok limit b)[i]? = some l) (hc : content l = true)
+    (hp : p l = none) (hsn : sn l = some sshEd25519) :
+    ∃ e, (cliParseRecipientsFile p sn sv lim maxTok limit b).res = .error e := by
+  cases hres : (cliParseRecipientsFile p sn sv lim maxTok limit b).res with
+  | error e => exact ⟨e, rfl⟩
+  | ok ks =>
+    exfalso
+    obtain ⟨_, hfine, _, _⟩ := (cli_keyfile_exact p sn sv lim maxTok limit b ks).mp hres
+    have := (hfine l (List.mem_of_getElem? hl) hc).2 hp
+    unfold skipCond at this
+    rw [hsn] at this
+    have h1 : (sshEd25519 != sshEd25519) = false := by simp
+    have h2 : (sshEd25519 == sshRsa) = false := by decide
+    simp [h1, h2] at this
 
 /-- No line is skipped silently: a delivered line that is neither empty nor a
     comment makes the parse fail, or contributes exactly its own key (at the
@@ -392,8 +412,8 @@ theorem limit_reader (maxTok limit : Nat) (b : Bytes) :
     %d"`, `"%q: line %d is too long"`, warning `"recipients file %q: ignoring
     unsupported SSH key of type %q at line %d"`: file name, line number, and — in
     the warning — the key-type word (first field, equal to the type string inside
-    the blob, not of a supported type or else the line is a well-formed public
-    key). No other part of a line is formatted.
+    the blob; not a supported type, or `ssh-rsa` on a well-formed public key
+    line). No other part of a line is formatted.
   * `age.ParseIdentities` / CLI `parseIdentities`: `"error at line %d: %v"` with
     the error of `ParseX25519Identity`, `"malformed secret key: " +` one of
       - `invalid character: s[%d]=%d`            position, ONE code point (first rune outside 33..126)
